@@ -89,6 +89,11 @@ def c01_jobs(tier):
                         jobs.append(job(ROOT, "HProtectRoundTrip", [s, role, hm, 0, k, 0]))
                     for i, k in enumerate(PAYLOAD_KINDS):
                         jobs.append(job(ROOT, "HProtectRoundTrip", [s, role, hm, 0, k, PAYLOAD_KINDS[(i + 3) % 15], 0]))
+    # two payloads of the same kind next to each other
+    for i, k in enumerate(PAYLOAD_KINDS):
+        if tier == "quick" and k not in (41, 40, 43, 37, 47):
+            continue
+        jobs.append(job(ROOT, "HProtectRoundTrip", [i % 9, i % 2, (i // 2) % 2, 0, k, k, 0], wall_ms=600000))
     # payloads with several elements (selectors, proposals, attributes): generator tier 1
     for i, k in enumerate((44, 45, 47, 48, 42) if tier == "quick" else (44, 45, 47, 48, 42, 33)):
         for s in ((i % 9,) if tier == "quick" else (i % 9, (i + 4) % 9)):
